@@ -2,6 +2,10 @@
 package cluster
 
 import (
+	"context"
+	"math/rand"
+
+	"mosn.io/mosn/pkg/types"
 	"mosn.io/mosn/pkg/zzverif/verif"
 )
 
@@ -91,6 +95,38 @@ func VerifC06_EdfShares() {
 	}
 	for i := range items {
 		verif.Assert(counts[i] == int(items[i].w), "over one full cycle an item was not picked exactly weight times")
+	}
+	verif.Cover("end")
+}
+
+// VerifC06_WRRShares: the weighted round-robin balancer over 2..3 healthy
+// hosts with weights from {1,2,4} (every vector, equal ones included), started
+// anywhere in its cycle (the warm-up draw is arbitrary): over sum(w)
+// consecutive picks each host is chosen exactly w_i times.
+func VerifC06_WRRShares() {
+	verif.Replace("math/rand.NewSource", func(int64) rand.Source { return zzAnySource{} })
+	n := 2 + verif.Choose("hosts", 2)
+	var hs []types.Host
+	total := 0
+	for i := 0; i < n; i++ {
+		w := []uint32{1, 2, 4}[verif.Choose("weight", 3)]
+		hs = append(hs, &zzLBHost{name: zzHostNames[i], healthy: true, weight: w})
+		total += int(w)
+	}
+	lb := newWRRLoadBalancer(nil, NewHostSet(hs)).(*WRRLoadBalancer)
+	lb.rrLB.(*roundRobinLoadBalancer).rrIndex = uint32(verif.Choose("rr_start", 3))
+	ctx := &zzLBCtx{ctx: context.Background()}
+	counts := make([]int, n)
+	for k := 0; k < total; k++ {
+		h := lb.ChooseHost(ctx)
+		for i := range hs {
+			if hs[i] == h {
+				counts[i]++
+			}
+		}
+	}
+	for i := range hs {
+		verif.Assert(counts[i]*total == int(hs[i].Weight())*total, "over one full cycle a host was not chosen exactly weight times (configured weights ignored or skewed)")
 	}
 	verif.Cover("end")
 }
